@@ -597,3 +597,35 @@ CHECKS["C10"] = dict(
                "up to the bound for the stated scripts, which is the right level for lost wake-ups, deadlocks and misattributed results.",
     level_note="Trusted: the scheduler models mutex/condvar semantics faithfully (real primitives are called only when the model says they cannot block); determinism is re-checked by replaying the default schedule.",
     **C10_COMMON)
+
+# ------------------------------------------------------------------------------------------ C09
+TSAN_ENV = {"TSAN_OPTIONS": "die_after_fork=0 exitcode=66 halt_on_error=1 report_signal_unsafe=0"}
+def c09_parts(tier, seed):
+    T = "c10_sessions"
+    q = tier == "quick"
+    if q:
+        return [
+            P("tsan-default-all", T, "sched-tsan", ["--part", "explore", "--threads", "2,3", "--bound", 0, "--scripts", "S1;S2;S3;S4;S6;S7;S8;S9;S12;S14"], workers=10, env=TSAN_ENV, require=["schedules"], deadline_frac=0.9),
+            P("tsan-bound1-options", T, "sched-tsan", ["--part", "explore", "--threads", "1", "--bound", 1, "--scripts", "S14"], workers=8, env=TSAN_ENV, require=["nontrivial"], deadline_frac=0.9),
+            P("tsan-pools", T, "sched-tsan", ["--part", "pool", "--bound", 1, "--poolcap", 12], workers=4, env=TSAN_ENV, require=["schedules"], deadline_frac=0.9),
+            P("tsan-free", T, "sched-tsan", ["--part", "free", "--threads", "4,8", "--scripts", "S1;S2;S3;S5;S7;S14;S15", "--reps", 1], workers=4, env=TSAN_ENV, require=["schedules"], deadline_frac=0.9),
+        ]
+    return [
+        P("tsan-bound1-all", T, "sched-tsan", ["--part", "explore", "--threads", "2,3", "--bound", 1], workers=12, env=TSAN_ENV, require=["schedules"], deadline_frac=0.75),
+        P("tsan-bound1-options", T, "sched-tsan", ["--part", "explore", "--threads", "1,2", "--bound", 1, "--scripts", "S14;S15"], workers=4, env=TSAN_ENV, require=["nontrivial"], deadline_frac=0.75),
+        P("tsan-pools", T, "sched-tsan", ["--part", "pool", "--bound", 1, "--poolcap", 200], workers=4, env=TSAN_ENV, require=["schedules"], deadline_frac=0.3),
+        P("tsan-free", T, "sched-tsan", ["--part", "free", "--threads", "2,4,8", "--reps", 3], workers=4, env=TSAN_ENV, require=["schedules"], deadline_frac=0.3),
+    ]
+
+CHECKS["C09"] = dict(
+    parts=c09_parts,
+    bound=dict(quick="default schedule of 10 scripts with Threads 2 and 3; delay bound 1 of the option-change script S14 (Threads 1); worker pools (proof-game filter with 3 workers, "
+                     "hash-table clear pool) scheduled default + 12 single deviations; free-running complement: 7 scripts x Threads 4, 8",
+               thorough="delay bound 1 for all scripts with Threads 2 and 3 under the deadline (forking a ThreadSanitizer process costs ~1 s; unfinished bounds are reported as exhaustive:false)"),
+    technique="stateless model checking of the real code under the controlled scheduler with ThreadSanitizer's happens-before race detection applied to every explored schedule "
+              "(scheduler hand-offs are invisible to it), plus a free-running sampling complement reported separately",
+    level_text="Every explored schedule of the real engine threads is analysed by ThreadSanitizer's happens-before detector; because the scheduler's token hand-off uses raw futexes in an "
+               "uninstrumented translation unit, only the program's own synchronisation orders accesses, so a missing lock or atomic is reported even though the threads are serialised.",
+    level_note="Trusted: ThreadSanitizer (gcc 12) and its interceptors; libstdc++ iostream internals are uninstrumented; searches inside sessions are tiny, so races deep inside the parallel "
+               "search are covered only by the free-running complement.",
+    **dict(C10_COMMON, oracle="no ThreadSanitizer report in any explored schedule (report text + schedule stored in the replay file); additionally the C10 oracles (deadlock, contract)"))
